@@ -701,7 +701,7 @@ def offset_flows(rep, prog, rule, floor=20):
             if len(tg) == 1 and tg[0].kind != "closure":
                 h = tg[0]
                 for i in range(1, h.arg_count + 1):
-                    if h.local_name(i) == "src_x" and i - 1 < len(c.args):
+                    if h.local_name(i) in ("src_x", "x_src", "start_src_x") and i - 1 < len(c.args):
                         idx, what = c.args[i - 1], "%s(.., src_x = .., ..)" % short(h.name)
                 if idx is None and c.name.startswith(HELPER_MODS) and len(c.args) == 2 and \
                         not short(c.name).startswith("store") and \
